@@ -297,8 +297,8 @@ func vh_C12_L1_roundtrip_control() {
 		vassert(ok && vBytesEq(out.cookie, in.cookie), "COOKIE-ECHO cookie preserved")
 		vcover("cookie-echo")
 	case 4:
-		// HEARTBEAT as sendActiveHeartbeatLocked builds it
-		info := nondetBytes(8)
+		// HEARTBEAT as sendActiveHeartbeatLocked builds it (8 bytes), and any other information length
+		info := nondetBytes([]int{8, 0, 1, 4, 5}[vPick(5)])
 		in := &chunkHeartbeat{chunkHeader: chunkHeader{typ: ctHeartbeat}, params: []param{&paramHeartbeatInfo{heartbeatInformation: info}}}
 		outc := vRoundTrip(in)
 		if outc == nil {
@@ -317,7 +317,7 @@ func vh_C12_L1_roundtrip_control() {
 		vcover("heartbeat")
 	case 5:
 		// HEARTBEAT-ACK as handleHeartbeat builds it
-		info := nondetBytes(8)
+		info := nondetBytes([]int{8, 0, 1, 4, 5}[vPick(5)])
 		in := &chunkHeartbeatAck{params: []param{&paramHeartbeatInfo{heartbeatInformation: info}}}
 		outc := vRoundTrip(in)
 		if outc == nil {
@@ -364,7 +364,34 @@ func vh_C12_L1_roundtrip_control() {
 }
 
 func vh_C12_L1_roundtrip_abort_reconfig() {
-	switch vPick(5) {
+	switch vPick(6) {
+	case 5:
+		// ABORT with two causes, the first of any length (not only multiples of four)
+		n := vPick(6)
+		reason := nondetBytes(n)
+		in := &chunkAbort{errorCauses: []errorCause{
+			&errorCauseUserInitiatedAbort{upperLayerAbortReason: reason},
+			&errorCauseProtocolViolation{errorCauseHeader: errorCauseHeader{code: protocolViolation}, additionalInformation: nondetBytes(4)},
+		}}
+		outc := vRoundTrip(in)
+		if outc == nil {
+			return
+		}
+		out, ok := outc.(*chunkAbort)
+		vassert(ok, "ABORT decodes as ABORT")
+		if !ok {
+			return
+		}
+		vassert(len(out.errorCauses) == 2, "both causes survive the wire, whatever the length of the first")
+		if len(out.errorCauses) == 2 {
+			ua, ok1 := out.errorCauses[0].(*errorCauseUserInitiatedAbort)
+			_, ok2 := out.errorCauses[1].(*errorCauseProtocolViolation)
+			vassert(ok1 && ok2, "each cause decodes as what it was")
+			if ok1 {
+				vassert(vBytesEq(ua.upperLayerAbortReason, reason), "the abort reason is preserved")
+			}
+		}
+		vcover("abort-two-causes")
 	case 4:
 		// RECONFIG with two parameters: a reset request with an odd number of streams (needs
 		// padding before parameter B) and a response
@@ -461,4 +488,83 @@ func vh_C12_L1_roundtrip_abort_reconfig() {
 		vassert(ok && len(out.errorCauses) == 1, "ERROR carries its cause")
 		vcover("error")
 	}
+}
+
+// C12.L4: parameters this implementation does not know are skipped over exactly: an INIT or
+// INIT-ACK carrying a parameter of an unknown type and any length 4..10 (so with 0..3
+// bytes of padding) before, between or after the recognised ones decodes, and every
+// recognised parameter is found intact behind it.
+func vh_C12_L4_init_unknown_parameter_is_skipped() {
+	unknownTypes := []uint16{0x000c, 0xc006, 0xc004} // supported address types, adaptation layer indication, set primary address: none implemented here
+	ut := unknownTypes[vPick(len(unknownTypes))]
+	ul := 4 + vPick(7)
+	ub := append([]byte{byte(ut >> 8), byte(ut), 0, byte(ul)}, nondetBytes(ul-4)...)
+	unknown := &vRawParam{b: ub}
+	ack := vPick(2) == 1
+	common := chunkInitCommon{}
+	common.initiateTag, common.initialTSN = 1+nondetU32()%0xfffffffe, nondetU32()
+	common.numOutboundStreams, common.numInboundStreams = 1+nondetU16()%1000, 1+nondetU16()%1000
+	common.advertisedReceiverWindowCredit = nondetU32()
+	setSupportedExtensions(&common, vPick(2) == 1)
+	known := common.params
+	cookie := nondetBytes(5)
+	if ack {
+		known = append(known, &paramStateCookie{cookie: cookie})
+	}
+	pos := vPick(len(known) + 1)
+	var params []param
+	params = append(params, known[:pos]...)
+	params = append(params, unknown)
+	params = append(params, known[pos:]...)
+	common.params = params
+	var in chunk
+	if ack {
+		in = &chunkInitAck{chunkInitCommon: common}
+	} else {
+		in = &chunkInit{chunkInitCommon: common}
+	}
+	p := &packet{sourcePort: 5000, destinationPort: 5000, chunks: []chunk{in}}
+	raw, err := p.marshal(true)
+	vassert(err == nil, "constructed packet marshals")
+	q := &packet{}
+	err = q.unmarshal(false, raw)
+	if pos == len(known) && ul < 8 {
+		// a trailing parameter shorter than a header plus one word is not looked at
+		vassert(err == nil, "a short trailing unknown parameter does not make the chunk undecodable")
+	}
+	vassert(err == nil, "a chunk with an unknown parameter decodes")
+	if err != nil || len(q.chunks) != 1 {
+		return
+	}
+	var got *chunkInitCommon
+	switch x := q.chunks[0].(type) {
+	case *chunkInit:
+		got = &x.chunkInitCommon
+	case *chunkInitAck:
+		got = &x.chunkInitCommon
+	}
+	vassert(got != nil, "decodes as the same kind of chunk")
+	if got == nil {
+		return
+	}
+	vassert(got.initiateTag == common.initiateTag && got.initialTSN == common.initialTSN && got.advertisedReceiverWindowCredit == common.advertisedReceiverWindowCredit && got.numOutboundStreams == common.numOutboundStreams && got.numInboundStreams == common.numInboundStreams, "fixed fields preserved")
+	foundExt, foundCookie := false, false
+	for _, gp := range got.params {
+		switch x := gp.(type) {
+		case *paramSupportedExtensions:
+			want := known[0].(*paramSupportedExtensions)
+			same := len(x.ChunkTypes) == len(want.ChunkTypes)
+			for i := 0; same && i < len(x.ChunkTypes); i++ {
+				same = x.ChunkTypes[i] == want.ChunkTypes[i]
+			}
+			vassert(same, "the supported-extensions list is intact")
+			foundExt = true
+		case *paramStateCookie:
+			vassert(vBytesEq(x.cookie, cookie), "the state cookie is intact")
+			foundCookie = true
+		}
+	}
+	vassert(foundExt, "the supported-extensions parameter is found behind / before the unknown one")
+	vassert(foundCookie == ack, "the state cookie is found exactly when it was sent")
+	vcover("end")
 }
